@@ -129,9 +129,9 @@ func (g *DefaultGenerator) applyParameters(experiment *experimentsv1beta1.Experi
 	}
 
 	placeHolderToValueMap := make(map[string]string)
-	var metaRefKey, metaRefIndex string
 	nonMetaParamCount := 0
 	for _, param := range experiment.Spec.TrialTemplate.TrialParameters {
+		var metaRefKey, metaRefIndex string
 		metaMatchRegex := regexp.MustCompile(consts.TrialTemplateMetaReplaceFormatRegex)
 		sub := metaMatchRegex.FindStringSubmatch(param.Reference)
 		// handle trial parameters which consume trial assignments
